@@ -148,7 +148,7 @@ def harnesses(tier, seed):
                           expect=['feasible-point-unchanged'], nproc=1))
     for n in ([1, 2] if tier == 'quick' else [1, 2, 3]):
         hs.append(Harness("box-exact-binary64[n=%d]" % n, 'dfverif.checks.c15', 'body_box_exact', params=dict(n=n),
-                          cfg=core.Cfg(fork_queries=True, qtimeout_ms=60000), functions=['util.pbox'],
+                          cfg=core.Cfg(fork_queries=True, qtimeout_ms=60000, logic='QF_FP'), functions=['util.pbox'],
                           bounds="IEEE binary64, all finite/infinite non-NaN inputs with l <= u, per coordinate (pbox is elementwise)",
                           assumptions=["no NaN among w, l, u"], expect=['pbox-output-exactly-in-box'], nproc=1))
     return hs
